@@ -3,9 +3,10 @@
 From Coq Require Import List Bool Arith NArith ZArith String.
 From Coq.Strings Require Import Byte.
 From Verif.Base Require Import Bytes Outcome Str.
-From Verif.Model Require Import IE Codec Record SetB Msg Exporter.
-From Verif.Proofs Require Import SetB_lemmas Exporter_lemmas C08_lemmas C09_lemmas C09_refuted C09_oracle.
-From Verif.Driver Require Import Show SetShow HistShow RfcCheck C09drv.
+From Verif.Model Require Import IE Codec Record SetB Msg Exporter ExpObj.
+From Verif.Proofs Require Import SetB_lemmas Exporter_lemmas C08_lemmas C09_lemmas C09_refuted C09_oracle
+  ExpObj_lemmas C09gen_lemmas.
+From Verif.Driver Require Import Show SetShow HistShow HistObj RfcCheck C09drv.
 Import ListNotations.
 Local Open Scope N_scope.
 
@@ -42,9 +43,32 @@ Print Assumptions C09_error_writes_nothing.
    the Go type, element width = the type's width) - values that are well-kinded but not
    encodable (address family, MAC / octet-array length, nil) are inside the hypotheses. The oracle
    is a function of the structured observation; show_hist / parse_hobs only print / read it. *)
-Theorem C09_oracle_on_model : forall c,
-  c09_wf c (fst (hist_model cur c)) = true -> C09_holds_on c (hist_model cur c) = true.
+Theorem C09_oracle_on_model_h : forall c,
+  c09_wf_h c (fst (hist_model cur c)) = true -> C09_holds_on_h c (hist_model cur c) = true.
 Proof. exact c09_oracle_on_model. Qed.
+Print Assumptions C09_oracle_on_model_h.
+
+(* ---- the same over object-level histories (Model/ExpObj.v) ----
+   The application's set objects are reused - in particular the SAME set object is given to
+   SendSet again, e.g. a retry after a refused call -, GetBuffer may have been called on the
+   records before SendSet, element objects are shared and changed, templates are refreshed, the
+   process reconnects. A data record's buffer and encode error are cached by the first
+   GetBuffer (model: the record keeps the values it was encoded from; Model/ExpObj.v), so a set
+   refused for a value that cannot be encoded is refused again, with nothing written.
+   [hist_ok_g W outs]: every call satisfies c09_send for the template records W on the wire of
+   the CURRENT process (empty again after a reconnect); every call of a refresh does too. *)
+Theorem C09_no_invalid_any_history : forall h w W,
+  WInv w -> on_wire (x_tpls (w_exp w)) W -> Forall no_panic_out (grun cur w h) ->
+  hist_ok_g W (grun cur w h).
+Proof. exact no_invalid_g. Qed.
+Print Assumptions C09_no_invalid_any_history.
+
+(* the oracle of the check on these histories holds on the model's own observation of every
+   case within c09_wf (every set sent - as SendSet saw it - satisfies case_set_ok; no panic; the
+   histories of this property contain no refresh) *)
+Theorem C09_oracle_on_model : forall c,
+  c09_wf c (fst (gmodel cur c)) = true -> C09_holds_on c (gmodel cur c) = true.
+Proof. exact c09_oracle_on_model_g. Qed.
 Print Assumptions C09_oracle_on_model.
 
 (* On the faithful model of the code BEFORE the repairs the statement is false: witnesses
@@ -60,10 +84,14 @@ Theorem C09_witnesses_repaired :
   satisfies cur case_f7 = true /\ satisfies cur case_f12 = true.
 Proof. exact repaired_all. Qed.
 Theorem C09_each_repair_needed :
-  refutes (mkFixes false true true) case_f6 = true /\
-  refutes (mkFixes true false true) case_f7 = true /\
-  refutes (mkFixes true true false) case_f12 = true.
+  refutes (mkFixes false true true true true) case_f6 = true /\
+  refutes (mkFixes true false true true true) case_f7 = true /\
+  refutes (mkFixes true true false true true) case_f12 = true.
 Proof. exact each_repair_needed. Qed.
+(* a value that cannot be encoded, in a data record of length 0, was dropped silently *)
+Theorem C09_refuted_zero_length_record_orig :
+  refutes (mkFixes true true true true false) case_zero_len = true /\ satisfies cur case_zero_len = true.
+Proof. split; [exact refuted_zero_length_record|exact repaired_zero_length_record]. Qed.
 Print Assumptions C09_refuted_F12_orig.
 
 (* non-vacuity: a fresh process satisfies the hypotheses; a mixed history without panics *)
@@ -78,9 +106,23 @@ Definition c09_case : string :=
 Example C09_oracle_nonvacuous :
   match parse_hcase (tokens c09_case) with
   | Some c => let m := hist_model cur c in
-              c09_wf c (fst m) && C09_holds_on c m &&
+              c09_wf_h c (fst m) && C09_holds_on_h c m &&
               list_eqb String.eqb (map (fun o => show_sres (so_res o)) (fst m))
                        ["r=ok:32"; "r=ok:26"; "r=err:encode"; "r=err:notemplate"]%string
+  | None => false
+  end = true.
+Proof. vm_compute. reflexivity. Qed.
+
+(* non-vacuity of the object-level statement: an ill-typed set is refused, retried (refused
+   again, also after an explicit GetBuffer), then reset and reused for a good record *)
+Definition c09_gcase : string :=
+  "tcp 1 0 full S P T 300 A 1 300 2 7 6 0 2 i16 0 8 18 0 4 ip nil ; S P D 300 A 1 300 2 7 6 0 2 i16 5 8 18 0 4 ip hex 20010db8000000000000000000000001 ; C 1 ; C 1 G ; C 1 R P D 300 A 1 300 2 7 6 0 2 i16 5 8 18 0 4 ip hex 0a000001 ; X - C 1 ; C 0 ; C 1 ;".
+Example C09_general_nonvacuous :
+  match parse_gcase (tokens c09_gcase) with
+  | Some c => let m := gmodel cur c in
+              c09_wf c (fst m) && C09_holds_on c m &&
+              list_eqb String.eqb (map (fun o => match o with GOSend s => show_sres (so_res s) | GORefresh _ _ => "f"%string | GOReconn _ => "x"%string end) (fst m))
+                       ["r=ok:32"; "r=err:encode"; "r=err:encode"; "r=err:encode"; "r=ok:26"; "x"; "r=err:notemplate"; "r=ok:32"; "r=ok:26"]%string
   | None => false
   end = true.
 Proof. vm_compute. reflexivity. Qed.
